@@ -330,6 +330,30 @@ def rule_r6_enumerate(text, fired):
         fired['R6'] = fired.get('R6', 0) + 1
 
 
+FOR_REF = re.compile(r"\bfor\s+&(?P<c>\w+)\s+in\s+(?P<s>\w+)\s*\{")
+
+
+def rule_r6_for_ref(text, fired):
+    """for &C in S { BODY }  ->  { let mut r6_kN: usize = 0; while r6_kN < S.len() { let C = S[r6_kN]; BODY r6_kN += 1; } }
+    (S a plain identifier naming a slice; BODY without `continue`)."""
+    n = 0
+    while True:
+        code = blank_noncode(text)
+        m = FOR_REF.search(code)
+        if not m:
+            return text
+        ob = m.end() - 1
+        cb = match_close(code, ob)
+        if re.search(r'\bcontinue\b', code[ob + 1:cb]):
+            raise Unsupported('R6 for-ref: loop body contains `continue`')
+        c, sq = m.group('c'), m.group('s')
+        i = 'r6_k%d' % n
+        n += 1
+        text = text[:cb] + ' %s += 1; } }' % i + text[cb + 1:]
+        text = splice(text, m.start(), m.end(), '{ let mut %s: usize = 0; while %s < %s.len() { let %s = %s[%s];' % (i, i, sq, c, sq, i))
+        fired['R6'] = fired.get('R6', 0) + 1
+
+
 def rule_r8_anon_loop_var(text, fired):
     """for _ in A..B  ->  for anon_i in A..B  (naming the anonymous loop variable so that invariants can mention it)"""
     code = blank_noncode(text)
@@ -348,6 +372,7 @@ def rule_r6_idioms(text, fired):
     text = rule_r8_anon_loop_var(text, fired)
     text = rule_r6_step_by(text, fired)
     text = rule_r6_enumerate(text, fired)
+    text = rule_r6_for_ref(text, fired)
     changed = True
     while changed:
         changed = False
